@@ -63,6 +63,9 @@ T = {
     "C19": ("linear-map extraction monitor: one-hot standard-normal variates pushed through the real sampler (run(T, randn=...)) give the map A; A A^T vs the canonical covariance from the harness' own diagonalisation of the supercell dynamical matrix; uu, uu.uu_inv, run_d2f; mean-square displacement matrices vs the harness' mode sum on full meshes",
             "Held on the executions produced: 12 crystals x supercells with and without conjugate q pairs x quantum/classical x T in {0,10,300,2000} x cutoffs; MSD matrices at T in {0,0.7,10,300,2000} incl. a heavy-mass variant that puts h nu ~ kT near 1 K, frequency windows, projections, CIF transform.",
             "numpy eigh of M^-1/2 Phi M^-1/2 and phonopy.units constants; the same cutoff rule applied to the harness' own spectrum", "3/C19"),
+    "C20": ("reference-model monitor: generator-owned EOS parameters as smooth functions of T -> exact-EOS free energies -> PhonopyQHA must return V0(T), G(T), B0(T), documented finite-difference thermal expansion and C_P; defining meaning of each EOS parameter by Richardson-extrapolated central differences",
+            "Held on the executions produced: 3 EOS x 60 (quick) / 600 (thorough) parameter sets for the defining identities; 3 EOS x parameter sets x 5..15-point volume grids x pressures {none,0,+-5,30 GPa} x electronic energies of shape (V) and (T,V) x t_max choices; static BulkModulus fit.",
+            "scipy from the offline wheelhouse; exact-EOS input so the least-squares minimum is the generating parameter set", "3/C20"),
 }
 
 NA_REASON = "check not built yet in this round (runtime-monitoring driver pending); no claim is made"
